@@ -1,6 +1,7 @@
 (* C17 property theorems: statements only, each closed by [exact]. *)
 From Coq Require Import Permutation.
-From Boltons Require Import Lib.Prelude Model.C17_Model Proofs.C17_Dict Proofs.C17_OTO Proofs.C17_M2M Proofs.C17_FD.
+From Boltons Require Import Lib.Prelude Model.C17_Model Spec.C17_Spec Check.C17_Check
+  Proofs.C17_Dict Proofs.C17_OTO Proofs.C17_M2M Proofs.C17_FD Proofs.C17_RefineOTO.
 
 (* OneToOne: after ANY history of instance creation (pairs, .unique, copies),
    []=, del, pop, popitem, clear, setdefault, update, |=, update-from-instance,
@@ -21,6 +22,24 @@ Example C17_oto_inhabited :
   exists o, In o (oto_run [HNew false [(0,1);(2,1);(3,4)]; HOp 0 true (OSet 4 0); HCopy 0 true;
                            HUpdFrom true 1 false 0 false; HOp 1 true OPopitem]) /\ length (o_fwd o) = 2.
 Proof. eexists. split; [vm_compute; left; reflexivity|reflexivity]. Qed.
+
+(* Refinement: on every history (no instance index out of range) the model's own
+   observations - every instance viewed after every step - satisfy exactly the
+   Spec predicate [holds] that the correspondence run evaluates on the
+   implementation's observations: exact inverses, inv.inv identity, the
+   reference effect of each operation on the one-to-one relation (set k v evicts
+   k's old pair and v's old owner; update = fold; pop/popitem/setdefault/clear/
+   KeyError cases), copies equal, all other instances untouched.  Hence a run on
+   which [agree] holds transfers the Spec to the code on that run. *)
+Theorem C17_oto_refines : forall hops, no_bad_index (oto_trace [] hops) ->
+  c17_verdict (COto (oto_trace [] hops)) = (true, true, false).
+Proof. exact oto_model_refines_spec. Qed.
+Print Assumptions C17_oto_refines.
+
+Example C17_oto_refines_inhabited :
+  no_bad_index (oto_trace [] [HNew false [(0,1);(2,1);(3,4)]; HOp 0 true (OSet 4 0); HCopy 0 true;
+                              HUpdFrom true 1 false 0 false; HOp 1 true OPopitem; HNew true [(1,1);(2,1)]]).
+Proof. repeat constructor; simpl; discriminate. Qed.
 
 (* ManyToMany: after ANY history of add/remove/[]=/del/replace/update/
    update(other)/ManyToMany(other) through either side, data and inv hold the
